@@ -368,6 +368,45 @@ def family_hist(rng, count, nmin=6, nmax=9, extra=6):
     return out
 
 
+def family_hist_orth(rng, count):
+    """History owner nested inside one region of an orthogonal state whose sibling region has (deeper) content:
+    root{out, P||{R1{w, T{H, a, b}}, R2{c{c1, c2}, d}}}; H is entered from w (P stays active) and from out;
+    random kind of history, names, initial states and transition subset."""
+    out = []
+    while len(out) < count:
+        kind = ['compound', 'basic', 'orthogonal', 'compound', rng.choice(['deep', 'deep', 'shallow']), 'basic', 'basic',
+                'compound', 'compound', 'basic', 'basic', 'basic', 'basic', 'compound']
+        #        1 root     2 out    3 P           4 T         5 H                                   6 a      7 b
+        #        8 R2        9 c        10 c1    11 c2    12 d    13 w     14 R1
+        parent = [0, 1, 1, 14, 4, 4, 4, 3, 8, 9, 9, 8, 14, 3]
+        initial = [rng.choice([2, 3]), 0, 0, rng.choice([5, 6, 7]), 0, 0, 0, rng.choice([9, 12]), rng.choice([10, 11]),
+                   0, 0, 0, 0, rng.choice([13, 4])]
+        memory = [0, 0, 0, 0, rng.choice([6, 7]), 0, 0, 0, 0, 0, 0, 0, 0, 0]
+        n = len(kind)
+        pairs = [(2, 3), (3, 2), (2, 5), (6, 7), (7, 6), (9, 12), (12, 9), (10, 11), (11, 10), (2, 4), (2, 10),
+                 (1, 5), (3, 3), (8, 8), (4, 2), (13, 4), (13, 5), (4, 13), (6, 13)]
+        rng.shuffle(pairs)
+        pairs = list(dict.fromkeys(pairs))
+        perm = list(range(1, n + 1))
+        rng.shuffle(perm)
+        m = {old: new for old, new in zip(range(1, n + 1), perm)}
+        m[0] = 0
+        k2, p2, i2, m2 = [None] * n, [0] * n, [0] * n, [0] * n
+        for s in range(1, n + 1):
+            k2[m[s] - 1] = kind[s - 1]
+            p2[m[s] - 1] = m[parent[s - 1]]
+            i2[m[s] - 1] = m[initial[s - 1]]
+            m2[m[s] - 1] = m[memory[s - 1]]
+        c = new_chart(k2, p2, i2, m2)
+        c['trans'] = [mk_trans(m[a], m[b], i + 1) for i, (a, b) in enumerate(pairs) if wf_transition(c, m[a], m[b])]
+        for i, t in enumerate(c['trans']):
+            t['ev'] = i + 1
+        c['events'] = list(range(1, len(c['trans']) + 2))
+        if wf(c):
+            out.append(c)
+    return out
+
+
 # ---------------------------------------------------------------- F3: seeded random, richer charts
 
 def random_tree(rng, n, allow_history=True, allow_final=True, p_orth=0.34):
@@ -483,6 +522,67 @@ def family_f3(rng, count, nmin=5, nmax=8, tmin=4, tmax=10, nev=3, time_guards=Fa
         c['events'] = list(range(1, nev + 2))
         assert wf(c), c
         out.append(c)
+    return out
+
+
+# ---------------------------------------------------------------- F4: the charts shipped with sismic
+
+def family_shipped(repo=None, max_oracle=7):
+    """Abstractions of every statechart shipped in tests/yaml and docs/examples: structure, events and
+    priorities kept, code dropped (probes are added by realize.py), guards become oracle guards, contract
+    conditions become oracle conditions.  Charts that are not well-formed in the sense of DESIGN.md 2.1 or
+    that carry more than max_oracle guards are skipped."""
+    import glob
+    import os
+    from sismic.io import import_from_yaml
+    from sismic.model import (CompoundState, OrthogonalState, FinalState, ShallowHistoryState, DeepHistoryState)
+    repo = repo or os.environ.get('VERIF_REPO', '/repo')
+    out = []
+    files = sorted(glob.glob(os.path.join(repo, 'tests', 'yaml', '*.yaml'))
+                   + glob.glob(os.path.join(repo, 'docs', 'examples', '**', '*.yaml'), recursive=True))
+    for f in files:
+        try:
+            sc = import_from_yaml(filepath=f)
+        except Exception:
+            continue
+        names = sorted(sc.states)
+        ix = {n: i + 1 for i, n in enumerate(names)}
+        kind, parent, initial, memory = [], [], [], []
+        for n in names:
+            st = sc.state_for(n)
+            k = ('compound' if isinstance(st, CompoundState) else 'orthogonal' if isinstance(st, OrthogonalState)
+                 else 'final' if isinstance(st, FinalState) else 'shallow' if isinstance(st, ShallowHistoryState)
+                 else 'deep' if isinstance(st, DeepHistoryState) else 'basic')
+            if k in COMPOSITE and not sc.children_for(n):
+                k = 'basic'
+            kind.append(k)
+            parent.append(ix.get(sc.parent_for(n), 0))
+            initial.append(ix.get(getattr(st, 'initial', None), 0) if k == 'compound' else 0)
+            memory.append(ix.get(getattr(st, 'memory', None), 0) if k in HISTORY else 0)
+        evs = sorted({t.event for t in sc.transitions if t.event})
+        eix = {e: i + 1 for i, e in enumerate(evs)}
+        c = new_chart(kind, parent, initial, memory)
+        g = 0
+        for t in sc.transitions:
+            gk = 'none'
+            if t.guard or not t.event:
+                gk = 'oracle'
+                g += 1
+            prio = t.priority if isinstance(t.priority, int) else 0
+            c['trans'].append(mk_trans(ix[t.source], ix.get(t.target, 0), eix.get(t.event, 0), prio, gk, 0, None,
+                                       min(len(t.preconditions), 2), min(len(t.postconditions), 2),
+                                       min(len(t.invariants), 2)))
+        for n in names:
+            st = sc.state_for(n)
+            c['spre'][ix[n] - 1] = min(len(st.preconditions), 2)
+            c['spost'][ix[n] - 1] = min(len(st.postconditions), 2)
+            c['sinv'][ix[n] - 1] = min(len(st.invariants), 2)
+        c['events'] = list(range(1, len(evs) + 2))
+        c['source_file'] = os.path.relpath(f, repo)
+        if g <= max_oracle and wf(c):
+            out.append(c)
+    for c in out:
+        c.pop('source_file', None)
     return out
 
 
